@@ -319,8 +319,8 @@ func TestC15(t *testing.T) {
 	rec.Extra["rule"] = "rapid-generated programs (C01 and rewrite-biased generators; 10% use a name the environment lacks) x a generated environment value; 3 Eval runs + 14 compile variants {no Env, Env(struct), Env(*struct), Env(map)} x {AllowUndefinedVariables} x {Optimize} each run on the struct, pointer and map twins (up to 45 results per case); all that succeed must be Equiv. Non-trivial: at least one typed and one untyped variant succeed and a typed program contains a type-specialised instruction (OpEqualInt, OpEqualString, OpFetchMap, OpCallFast); distinct by source+environment."
 	rec.Extra["assumptions"] = []string{"failing variants are not compared (type information may add rejections)", "the map twin holds the same members as the struct: fields, promoted fields of the embedded Base, methods as bound closures"}
 	rec.Extra["floor"] = 0.05
-	if !core.RunRapid(t, rec, "random", cfg.N(6000, 150000), func(rt *rapid.T) *core.Case { return genC15(rt, cfg) }) {
+	if !core.RunRapid(t, rec, "random", cfg.N(6000, 60000), func(rt *rapid.T) *core.Case { return genC15(rt, cfg) }) {
 		return
 	}
-	core.RunRapid(t, rec, "dyn-needle", cfg.N(1500, 30000), func(rt *rapid.T) *core.Case { return genC15Dyn(rt, cfg) })
+	core.RunRapid(t, rec, "dyn-needle", cfg.N(1500, 12000), func(rt *rapid.T) *core.Case { return genC15Dyn(rt, cfg) })
 }
